@@ -18,8 +18,7 @@ Ltac mono_step s H :=
       lazymatch X with
       | s ?c => let HX := fresh "HX" in
                 pose proof (H c) as HX; destruct (s c) eqn:?;
-                [ rewrite HX by discriminate | rewrite HX by discriminate | rewrite HX by discriminate
-                | rewrite HX by discriminate | ]; clear HX; cbv iota beta
+                [ rewrite HX by discriminate | rewrite HX by discriminate | rewrite HX by discriminate | ]; clear HX; cbv iota beta
       | _ => destruct X eqn:?; cbv iota beta
       end
   end.
@@ -31,6 +30,7 @@ Proof.
   intros H c. destruct c; cbv [body].
   - cbv [expression_body]. mono s H.
   - cbv [primary_body ident_body paren_body]. cbv zeta. mono s H.
+  - cbv [operand_body]. mono s H.
   - cbv [loop_body]. mono s H.
   - cbv [prefix_op_body]. cbv zeta. mono s H.
   - cbv [nofail_body]. mono s H.
